@@ -10,7 +10,7 @@ import json
 import apidoc
 import rel
 from c10 import entries
-from common import Check, harness
+from common import Check, b64, harness
 
 
 def compare(a, b, keys):
@@ -86,7 +86,28 @@ def main(tier):
         if cid.startswith("a"):   # added block: 'with' is the case itself, 'without' the full document
             v = meta[cid]
             meta[cid] = (cid, v[1], v[2], v[3], v[4], v[5], v[6], "f" + cid[1:].split("_")[0])
+    # a fresh URL block that INCLUDEs a file the document already includes elsewhere (a method with its Path directive),
+    # and an unreferenced method removed from between two inclusions of that file
+    item = '  GET\n    Path\n    {\n      "id": 1\n    }\n    200 any\n'
+    u = "URL /%s/{id}\nINCLUDE parts/item.jst\n"
+    bird = "POST /zbirds/{k}\n  200 any\n"
+    tw = {"twa_0": ("JSIGHT 0.3\n" + u % "zcats", "JSIGHT 0.3\n" + u % "zcats" + u % "zdogs", [["interactions", "http GET /zdogs/{id}"], ["tags", "@zdogs"]]),
+          "twa_1": ("JSIGHT 0.3\n" + u % "zcats" + bird, "JSIGHT 0.3\n" + u % "zcats" + bird + u % "zdogs", [["interactions", "http GET /zdogs/{id}"], ["tags", "@zdogs"]]),
+          "twr_0": ("JSIGHT 0.3\n" + u % "zcats" + u % "zdogs", "JSIGHT 0.3\n" + u % "zcats" + bird + u % "zdogs", [["interactions", "http POST /zbirds/{k}"], ["tags", "@zbirds"]])}
+    for cid, (without, with_, keys) in tw.items():
+        for sfx, t in (("w", without), ("f", with_)):
+            cases.append({"id": cid + sfx, "files": {"main.jst": b64(t), "parts/item.jst": b64(item)}, "root": "main.jst"})
     obs = harness("run", cases)
+    for cid, (without, with_, keys) in tw.items():
+        chk.evaluations += 1
+        chk.traces += 1
+        chk.nontrivial.add(cid)
+        bad = compare(obs[cid + "w"], obs[cid + "f"], keys)
+        if bad:
+            sig = {"what": bad.split(":")[0][:50], "kind": "same-file-included-twice"}
+            chk.violation("adding/removing an independent block next to a file that is included twice: %s | with the block:\n%s--- parts/item.jst\n%s" % (bad, with_, item),
+                          {"kind": "locality_files", "files_with": {"main.jst": with_, "parts/item.jst": item}, "files_without": {"main.jst": without, "parts/item.jst": item},
+                           "keys": keys, "signature": sig}, sig)
     for cid, v in meta.items():
         fid, m, i, keys, full, less, kind = v[:7]
         wo = v[7] if len(v) > 7 else cid     # id of the run without the block
@@ -119,6 +140,14 @@ def replay(path):
         import fixrel
         return fixrel.replay("C20", rp)
     chk = Check("C20", "quick")
+    if rp.get("kind") == "locality_files":
+        obs = harness("run", [{"id": "a", "files": {k: b64(v) for k, v in rp["files_without"].items()}, "root": "main.jst"},
+                              {"id": "b", "files": {k: b64(v) for k, v in rp["files_with"].items()}, "root": "main.jst"}])
+        chk.evaluations = 1
+        bad = compare(obs["a"], obs["b"], rp["keys"])
+        if bad:
+            chk.violation(bad, rp, rp.get("signature"))
+        return chk.finish()
     obs = harness("run", [rel.case("a", rp["without"]), rel.case("b", rp["with"])])
     chk.evaluations = 1
     bad = compare(obs["a"], obs["b"], rp["keys"])
